@@ -41,6 +41,14 @@ CHECKS["C07"] = dict(cat="model_checking", design="DESIGN.md §4 C07",
    text="MapOrder.tla makes every range over a Go map an action that picks an arbitrary permutation (visit order of the analysed types, Cache.Imports) and states determinism as refinement to an order-free canonical output; TLC explores all orders. Binding to the code is by repetition, since Go's map order cannot be dictated: seeded full-feature packages (>=3 imported packages per Go header, several unions per struct, several Dart files, a table struct) are analysed and generated for all 8 generator entry points R times per process in P processes, and cmd/gomacro -config runs end to end twice; TraceDeterminism.tla requires one outcome, one file set and one hash per (program, target, file).",
    note="A surviving order dependence at a site with >=3 entries is missed with probability <= (1/3)^(R*P-1) per site (R*P = 24 quick, 200 thorough). Trusted: TLC, sha256.",
    tech="TLA+ model with map iteration order as nondeterminism (MapOrder.tla) checked by TLC + verdict-style trace validation (TraceDeterminism.tla) of repeated real runs in and across processes")
+CHECKS["C02"] = dict(cat="model_checking", design="DESIGN.md §4 C02",
+   text="WireJSON.tla defines Enc, the document C02 demands for a Go value (Kind/Data objects for union-typed components, otherwise exactly encoding/json: tag names, flattened embedded structs, nil slices/maps null, []byte base64, sorted map keys). Seeded random packages with unions in every listed position are compiled together with the wrappers gomacro generated (after the import fixing pass) into a binary that builds values by reflection from member values, marshals and unmarshals them; TraceWire.tla lets TLC compare every produced document with Enc of the value tree (objects as member sets, null = empty for empty containers) and require the round trip.",
+   note="Trusted: TLC; the in-binary engine (reflection builder, value-tree printer); encoding/json for scalar literals (number / string / time text) inside trees. Values and programs are random (seeded); the wire format itself is decided by the TLA+ definition, not by a second Go implementation.",
+   tech="TLA+ definition of the wire format (WireJSON.tla) + verdict-style trace validation (TraceWire.tla) of values marshalled by a binary compiled with the generated wrappers")
+CHECKS["C15"] = dict(cat="model_checking", design="DESIGN.md §4 C15",
+   text="RandModel.tla models the generated rand functions as a recursive process over the type graph and TLC shows, for every legal two-type program, that the call stack grows without bound only for types from which a type-graph cycle is reachable and that every other function returns (liveness under weak fairness). RandDef.tla states well-formedness of returned values (enum components among the exported constants, union components non-nil members, containers populated, skipped fields zero), variation, and the C02 wire format. The generated functions of seeded random packages are compiled and called K times per type under a stack limit and a timeout; TraceRand.tla judges every returned value tree.",
+   note="Trusted: TLC; the in-binary engine; OS-level stack limit / timeout for termination. Types from which a cycle is reachable never return (recorded finding, class computed from the analysed graph and cross-checked against the model's prediction); a few are executed in one witness program per run, the others are not called.",
+   tech="TLA+ model of the generated recursion (RandModel.tla) checked by TLC incl. liveness + verdict-style trace validation (TraceRand.tla, RandDef.tla) of values returned by the compiled generated code")
 NOT_APPLICABLE = {}
 ALL = ["C%02d" % i for i in range(1, 21)]
 
